@@ -95,6 +95,8 @@ pub enum Sim<const P: usize> {
     Null,
     Bool(bool),
     Int(i64),
+    /// integers above i64::MAX (serde_json holds them as u64): no i64 view, an f64 view as in Value
+    UInt(u64),
     Float(f64),
     Str(String),
     Arr(Vec<Sim<P>>),
@@ -116,6 +118,8 @@ impl<const P: usize> Sim<P> {
             Value::Number(n) => {
                 if let Some(i) = n.as_i64() {
                     Sim::Int(i)
+                } else if let Some(u) = n.as_u64() {
+                    Sim::UInt(u)
                 } else {
                     Sim::Float(n.as_f64().unwrap_or(0.0))
                 }
@@ -147,6 +151,7 @@ impl<const P: usize> Sim<P> {
             Sim::Null => Value::Null,
             Sim::Bool(b) => Value::Bool(*b),
             Sim::Int(i) => Value::Number(Number::from(*i)),
+            Sim::UInt(u) => Value::Number(Number::from(*u)),
             Sim::Float(f) => Number::from_f64(*f).map(Value::Number).unwrap_or(Value::Null),
             Sim::Str(s) => Value::String(s.clone()),
             Sim::Arr(a) => Value::Array(a.iter().map(|x| x.to_value()).collect()),
@@ -165,6 +170,7 @@ impl<const P: usize> Sim<P> {
             (Sim::Null, Sim::Null) => true,
             (Sim::Bool(a), Sim::Bool(b)) => a == b,
             (Sim::Int(a), Sim::Int(b)) => a == b,
+            (Sim::UInt(a), Sim::UInt(b)) => a == b,
             (Sim::Float(a), Sim::Float(b)) => a == b,
             (Sim::Str(a), Sim::Str(b)) => a == b,
             (Sim::Arr(a), Sim::Arr(b)) => a.len() == b.len() && a.iter().zip(b).all(|(x, y)| x.quiet_eq(y)),
@@ -325,6 +331,8 @@ impl<const P: usize> Queryable for Sim<P> {
         match self {
             Sim::Float(f) => Some(*f),
             Sim::Int(i) if personality().f64_for_ints() => Some(*i as f64),
+            // the only numeric view such a number has
+            Sim::UInt(u) => Some(*u as f64),
             _ => None,
         }
     }
@@ -377,6 +385,7 @@ pub enum SNode {
     Null,
     Bool(bool),
     Int(i64),
+    UInt(u64),
     Float(f64),
     Str(String),
     Arr(Vec<ShareDoc>),
@@ -415,9 +424,10 @@ impl ShareDoc {
             let node = match v {
                 Value::Null => SNode::Null,
                 Value::Bool(b) => SNode::Bool(*b),
-                Value::Number(n) => match n.as_i64() {
-                    Some(i) => SNode::Int(i),
-                    None => SNode::Float(n.as_f64().unwrap_or(0.0)),
+                Value::Number(n) => match (n.as_i64(), n.as_u64()) {
+                    (Some(i), _) => SNode::Int(i),
+                    (None, Some(u)) => SNode::UInt(u),
+                    (None, None) => SNode::Float(n.as_f64().unwrap_or(0.0)),
                 },
                 Value::String(s) => SNode::Str(s.clone()),
                 Value::Array(a) => SNode::Arr(a.iter().map(|x| build(x, pool, names)).collect()),
@@ -436,6 +446,7 @@ impl ShareDoc {
             SNode::Null => Value::Null,
             SNode::Bool(b) => Value::Bool(*b),
             SNode::Int(i) => Value::Number(Number::from(*i)),
+            SNode::UInt(u) => Value::Number(Number::from(*u)),
             SNode::Float(f) => Number::from_f64(*f).map(Value::Number).unwrap_or(Value::Null),
             SNode::Str(s) => Value::String(s.clone()),
             SNode::Arr(a) => Value::Array(a.iter().map(|x| x.to_value()).collect()),
@@ -556,6 +567,7 @@ impl Queryable for ShareDoc {
         match &*self.0 {
             SNode::Float(f) => Some(*f),
             SNode::Int(i) if personality().f64_for_ints() => Some(*i as f64),
+            SNode::UInt(u) => Some(*u as f64),
             _ => None,
         }
     }
